@@ -68,3 +68,16 @@ PROPS["C10"] = dict(
     design_ref="§6 C10",
     scope="all call histories, all row lengths; full rectangularity only under NoRecount (finding)",
 )
+
+PROPS["C05"] = dict(
+    groups=[],
+    pregen=[("gen-policy", "SeaQ/Gen/Policy.lean")],
+    lean_props=["SeaQ.Props.C05"],
+    lean_obligations=["SeaQ.Lemmas.PrattRound", "SeaQ.Lemmas.PrattBridge"],
+    technique="Lean 4 proof: generic print/parse round trip for a precedence-climbing grammar with prefix NOT, non-associative levels, mixfix BETWEEN/LIKE..ESCAPE and delimited constructs (induction on expression size, fuel monotonicity), plus a bridge reducing licensing of all trees to a finite obligation on (dialect table, policy cells) decided by kernel evaluation on cells observed exhaustively from the current crate; printer tied by differential token-stream comparison; independent reference parser as oracle",
+    level_text="Machine-checked proof that every well-formed expression tree (any depth; NOT, every binary operator incl. Postgres/SQLite extension and custom operators, the nested-binary encodings of BETWEEN..AND and LIKE..ESCAPE, function calls, tuples, CASE, CAST, sub-selects) printed with the crate's parenthesis policy re-parses, under the dialect's binding powers / non-associativity / mixfix forms, to exactly the tree that was built. The policy is not copied: it is observed from the compiled crate on every run for every (outer operator, child kind, side, backend) and the finite licensing obligation is re-decided by the kernel, so a policy change that is licensed stays green and one that is not breaks the proof and is turned into a concrete expression. SQLite and Postgres in full; MySQL with the recorded exception (bare arithmetic pattern after LIKE).",
+    level_note="Trusted: Lean kernel; the three dialect tables (Model/Dialects.lean, transcribed from the engines' grammars; Postgres' b_expr lower bound of BETWEEN is approximated by a stricter threshold); the observation that the crate's policy depends only on (outer operator, child kind, side) — validated by the random-tree differential run (model printing vs crate rendering, token for token); option-more-parentheses only removes drops (checked in the thorough tier by a second build). AsEnum (transparent on MySQL/SQLite) and the empty-IN rewrite are outside the Lean model and covered by the reference-parser oracle only.",
+    design_ref="§6 C05",
+    scope="all well-formed trees x 3 dialect tables; policy cells exhaustive",
+    timeout=3000,
+)
